@@ -102,12 +102,23 @@ def rule_should_sign(ctx: Ctx) -> None:
     # already attested by us
     loops = [l for l in walk_no_nested(fi.node) if isinstance(l, ast.For) and "get_attestations_over" in norm(l.iter)]
     ok = False
+    ga = repo.method("IdentityDatabase", "get_authority", "ipv8/attestation/identity/database.py")
+    ga_ret = norm(ga.node.returns) if ga.node.returns is not None else ""
+    single_key = ga_ret in ("bytes", "'bytes'")
+    mykey = "self.my_peer.public_key.key_to_bin()"
     for l in loops:
+        att = norm(l.target)
         for r in [r for r in ast.walk(l) if isinstance(r, ast.Return) and const_value(r.value) is False]:
             for f in facts_at(cfg, r):
-                if f.op == "truthy" and f.pos and isinstance(f.left, ast.Call) and chain(f.left.func) == "any" and "self.my_peer.public_key.key_to_bin()" in norm(f.left) \
-                        and "get_authority" in norm(f.left):
-                    ok = True
+                if f.op == "eq" and f.pos and {norm(f.left), norm(f.right)} == {f"{pseud}.database.get_authority({att})", mykey}:
+                    ok = single_key
+                if f.op == "truthy" and f.pos and isinstance(f.left, ast.Call) and chain(f.left.func) == "any" and mykey in norm(f.left) and "get_authority" in norm(f.left):
+                    if single_key:
+                        ctx.check(False, "should-sign", fi, f.left, "already-attested test compares whole keys",
+                                  f"the 'already attested' refusal iterates over get_authority(), which returns ONE key as `{ga_ret}`: each element is an int and never equals "
+                                  "our key (bytes), so the refusal is dead code and a replayed disclosure is attested again")
+                    else:
+                        ok = True
         ok = ok and norm(arg(l.iter, 0)) == meta and site.lineno > l.end_lineno
     ctx.check(ok, "should-sign", fi, site, "refuses when one of the attestations over this metadata is already by us", "should_sign attests the same metadata twice")
     # registrations are written only by add_known_hash
@@ -270,6 +281,9 @@ def run(ctx: Ctx) -> None:
 
 
 WITNESSES = [
+    {"name": "pre-fix: already-attested check iterates over key bytes", "file": IC, "rule": "should-sign",
+     "old": "            if pseudonym.database.get_authority(attestation) == self.my_peer.public_key.key_to_bin():",
+     "new": "            if any(authority == self.my_peer.public_key.key_to_bin()\n                   for authority in pseudonym.database.get_authority(attestation)):"},
     {"name": "subject key check dropped", "file": IC, "rule": "should-sign",
      "old": "        if pseudonym.public_key.key_to_bin() != self.known_attestation_hashes[attribute_hash][2]:\n            self.logger.debug(\"Not signing %s, attribute doesn't belong to key!\", str(metadata))\n            return False\n",
      "new": ""},
